@@ -212,13 +212,14 @@ def c14(tr, sem=None):
     v = []
     seq = []
     for i, e in enumerate(_events(tr)):
+        t = e.get('t')
         for o in e.get('obs', []):
             if o[0] == 'emit':
-                seq.append((o[1], o[3], o[4]))
+                seq.append((o[1], o[3], o[4], t))
             elif o[0] == 'save':
-                seq.append(('save', o[2], o[3]))
+                seq.append(('save', o[2], o[3], t))
             elif o[0] == 'body':
-                seq.append(('body', o[2], o[5]))
+                seq.append(('body', o[2], o[5], t))
     if not seq:
         return v
     r = tr['results'][0] if tr['results'] else None
@@ -232,27 +233,36 @@ def c14(tr, sem=None):
             v.append('on_pipeline_complete not exactly once / not last')
         elif L.outcome_str(ncomp[0][2]) != L.outcome_str(r):
             v.append('on_pipeline_complete carries a different result than run returned')
-    # per node: nstart (ncomplete err)* ncomplete ; value stored (save) only after a successful ncomplete
+    # per execution (= per node and executing task): nstart (body… ncomplete err)* ncomplete ;
+    # the value is stored (save) only after a successful ncomplete
     state = {}
-    for kind, n, x in seq:
+    for kind, n, x, t in seq:
+        k = (n, t)
         if kind == 'nstart':
-            if state.get(n) == 'open':
+            if state.get(k) == 'open':
                 v.append(f'on_node_start of node {n} twice without on_node_complete')
-            state[n] = 'open'
+            state[k] = 'open'
         elif kind == 'ncomplete':
-            if state.get(n) != 'open':
-                v.append(f'on_node_complete of node {n} without on_node_start')
-            state[n] = 'open' if x is not None else 'ok'
-            if x is not None:
-                state[n] = 'failed-or-retry'
+            if state.get(k) not in ('open',):
+                v.append(f'on_node_complete of node {n} without a preceding on_node_start / body call')
+            state[k] = 'ok' if x is None else 'failed-or-retry'
         elif kind == 'save':
-            if state.get(n) == 'open':
+            if state.get(k) == 'open':
                 v.append(f'value of node {n} stored before its on_node_complete')
             isexc = isinstance(x, dict) and 'exc' in x
-            if state.get(n) == 'failed-or-retry' and not isexc:
+            if state.get(k) == 'failed-or-retry' and not isexc:
                 v.append(f'value of node {n} stored after a failing on_node_complete')
-        elif kind == 'body' and state.get(n) == 'failed-or-retry':
-            state[n] = 'open'      # retry attempt
+        elif kind == 'body':
+            if state.get(k) == 'failed-or-retry':
+                state[k] = 'open'      # retry attempt
+            elif state.get(k) != 'open':
+                v.append(f'body of node {n} invoked without on_node_start')
+    for _, o in _obs(tr, ('emit',), include_after=False):
+        pass
+    for e in tr.get('after', []):
+        for o in e.get('obs', []):
+            if o[0] == 'emit':
+                v.append(f'event {o[1]} of node {o[3]} emitted after on_pipeline_complete / after the run ended')
     return v
 
 
